@@ -56,9 +56,9 @@ def locked_drive(ctx, lines):
 
 
 HYP_SIGNATURE = {
-    'infect-only-susceptible': lambda n: dict(oracle='infect-nonsusceptible', disease=n),
-    'recovery-due-implies-infection-due': lambda n: dict(oracle='timer', disease=n, timer='ti_recovered', kind='due-before-onset'),
-    'congenital-due-only-for-susceptible': lambda n: dict(oracle='timer', disease=n, timer='ti_congenital', kind='due-for-non-susceptible'),
+    'infect-only-susceptible': lambda n, clock: dict(oracle='infect-nonsusceptible', disease=n),
+    'recovery-due-implies-infection-due': lambda n, clock: dict(oracle='timer', disease=n, timer='ti_recovered', kind='due-before-onset'),
+    'congenital-due-only-for-susceptible': lambda n, clock: dict(oracle='timer', disease=n, timer='ti_congenital', kind='due-for-non-susceptible', clock=clock),
 }
 
 
@@ -126,10 +126,23 @@ def correspond(ctx):
     atom_seen = {}
     ti_now = {}     # disease -> [infections recorded at the current step, recorded at another time]
 
+    clock_obs = {}  # ('finer', r, sim index) -> module indices seen;  ('coarser', c, module index) -> sim indices seen
+
     def on_call(call):
         n = call.name
         if n not in facts: return
         fl = facts[n]['flags']
+        # the two-clock model (Model/TimerOps.lean) against the real loop: module index vs simulation index at this call
+        try:
+            dis = call.disease
+            if P.clock_of(dis) == 'own-timestep' and str(dis.t.unit) == str(dis.sim.t.unit):
+                a, b = float(dis.sim.t.dt), float(dis.t.dt)
+                if a / b >= 2 and float(a / b).is_integer():
+                    clock_obs.setdefault(('finer', int(a / b), call.sim_ti), set()).add(call.ti)
+                elif b / a >= 2 and float(b / a).is_integer():
+                    clock_obs.setdefault(('coarser', int(b / a), call.ti), set()).add(call.sim_ti)
+        except Exception as e:
+            ctx.broke('correspondence', 'C13.clock', f'cannot read the timelines of {n}: {type(e).__name__}: {e}')
         vals, known, uid_arg = P.guard_matrix(call, facts)
         atoms = facts[n]['methods'][call.method]['atoms']
         au = call.auids
@@ -162,7 +175,7 @@ def correspond(ctx):
             hyp_checks['infect-only-susceptible'] = hyp_checks.get('infect-only-susceptible', 0) + int(uid_arg.sum())
             v = uid_arg & ~bd['susceptible']
             if v.any():
-                hyp_viol.setdefault((n, 'infect-only-susceptible'), dict(n=0, ti=call.ti, uid=int(au[np.flatnonzero(v)[0]]), cfg=state['cfg']))['n'] += int(v.sum())
+                hyp_viol.setdefault((n, 'infect-only-susceptible', P.clock_of(call.disease)), dict(n=0, ti=call.ti, uid=int(au[np.flatnonzero(v)[0]]), cfg=state['cfg']))['n'] += int(v.sum())
         if call.method == 'set_prognoses' and uid_arg is not None and uid_arg.any():
             tinf = np.asarray(call.disease.ti_infected.raw[au[uid_arg]], dtype=float)
             c = ti_now.setdefault(n, [0, 0])
@@ -175,7 +188,7 @@ def correspond(ctx):
                 continue
             hyp_checks[hname] = hyp_checks.get(hname, 0) + len(au)
             if v.any():
-                hyp_viol.setdefault((n, hname), dict(n=0, ti=call.ti, uid=int(au[np.flatnonzero(v)[0]]), cfg=state['cfg']))['n'] += int(v.sum())
+                hyp_viol.setdefault((n, hname, P.clock_of(call.disease)), dict(n=0, ti=call.ti, uid=int(au[np.flatnonzero(v)[0]]), cfg=state['cfg']))['n'] += int(v.sum())
         # distinct rows
         if len(au) == 0: return
         nf = len(fl); ng = len(atoms)
@@ -320,6 +333,24 @@ def correspond(ctx):
         if '?' not in g and len(obs) > 1:
             ctx.broke('correspondence', f'C13.{n}.{m}', f'real code is not a function of (flags, observed guards) at `{ln}`: {list(obs)}',
                       data=dict(line=ln))
+    # module index vs simulation index against the two-clock model
+    ckeys = sorted(clock_obs)
+    cout = locked_drive(ctx, [f'{k[0]} {k[1]} {k[2]}' for k in ckeys]) if ckeys else []
+    for k, o in zip(ckeys, cout):
+        seen = sorted(clock_obs[k])
+        ln = f'{k[0]} {k[1]} {k[2]}'
+        ctx.case(ln, nontrivial=k[2] >= 2)
+        ctx.count('clock_cases')
+        try:
+            nums = [int(x) for x in o.split()[1:]] if o.startswith('ok ') else None
+        except ValueError:
+            nums = None
+        if nums is None or len(nums) != (2 if k[0] == 'finer' else 1):
+            ctx.broke('correspondence', 'C13.clock', f'driver rejected `{ln}`: {o}')
+        elif k[0] == 'finer' and not (nums[0] <= seen[0] and seen[-1] <= nums[1]):
+            ctx.broke('correspondence', 'C13.clock', f'a module {k[1]}x finer than the sim ran its steps {seen} while sim.ti={k[2]}; the two-clock model says {nums[0]}..{nums[1]}')
+        elif k[0] == 'coarser' and seen != nums:
+            ctx.broke('correspondence', 'C13.clock', f'a module {k[1]}x coarser than the sim ran its step {k[2]} while sim.ti was {seen}; the two-clock model says {nums[0]}')
     # treatment rounds against the generated treatment model
     tkeys = sorted(treat_rows)
     tlines = [f'treat bpg {b} {g}' for b, g in tkeys]
@@ -340,10 +371,10 @@ def correspond(ctx):
                   f'{v["label"]} changed {v["disease"]} flags of uid {v["uid"]} at ti={v["ti"]} in a way its model does not allow: {v["was"]} -> {v["now"]}',
                   data=v)
     ctx.notes['outside_writer_agent_checks'] = out_checked
-    for (n, hname), v in hyp_viol.items():
+    for (n, hname, clock), v in hyp_viol.items():
         # a theorem hypothesis failing on the real arrays is itself a violation of the property on the real code (same
         # signature as the oracle's check of that relation; replay = oracle_run on the stored configuration)
-        sig = HYP_SIGNATURE[hname](n)
+        sig = HYP_SIGNATURE[hname](n, clock)
         ctx.fail(sig, f'{n}: the relation `{hname}` assumed by the C13 theorems fails on the real arrays for {v["n"]} agent-step(s) '
                       f'(first: ti={v["ti"]} uid={v["uid"]})', dict(kind='sim', cfg=v['cfg'], signature=sig, where=dict(ti=v['ti'], uid=v['uid'])))
     for n, (now, other) in ti_now.items():   # the regenerated fact `infectionTimeIsNow` against the live arrays
@@ -437,7 +468,14 @@ def oracle_run(cfg, max_fail=40):
         cnt = np.stack([fl[c] for c in comps], axis=1).sum(axis=1)
         bad = alive & (cnt != 1)
         for j in np.flatnonzero(bad)[:50]:
-            held = '+'.join(sorted(c for c in comps if fl[c][j])) or 'none'
+            hs = sorted(c for c in comps if fl[c][j])
+            held = '+'.join(hs) or 'none'
+            if dn == 'syphilis' and int(auids[j]) in cong_nonsus and len(hs) == 2 and 'congenital' in hs and (set(hs) & set(SYPH_STAGES)):
+                # attributed: this agent's congenital outcome was seen falling due while it was already in a stage
+                fail(dict(oracle='partition', disease=dn, flags='congenital+stage', cause='congenital-outcome-due-for-infected-agent'),
+                     f'{dn}: living agent {int(auids[j])} at ti={ti}{when} holds compartments {{{held}}}: its congenital outcome fell due after it '
+                     f'had been infected through set_prognoses', ti=ti, uid=int(auids[j]))
+                continue
             fail(dict(oracle='partition', disease=dn, flags=held),
                  f'{dn}: living agent {int(auids[j])} at ti={ti}{when} holds compartments {{{held}}} instead of exactly one of {comps}',
                  ti=ti, uid=int(auids[j]))
@@ -456,6 +494,7 @@ def oracle_run(cfg, max_fail=40):
                      f'syphilis: living agent {int(auids[j])} at ti={ti}{when}: infected={bool(fl[I][j])} but in a stage={bool(stage[j])}',
                      ti=ti, uid=int(auids[j]))
 
+    cong_nonsus = set()  # syphilis: agents whose congenital outcome was observed falling due while they were not susceptible
     module_steps = {}    # disease instance name -> step_state calls (= module steps) since the last per-sim-step snapshot
 
     def on_entry(call):
@@ -483,8 +522,10 @@ def oracle_run(cfg, max_fail=40):
                 bad = (np.asarray(dis.ti_congenital.raw[au], dtype=float) == call.ti) & ~np.asarray(dis.susceptible.raw[au], dtype=bool)
                 if bad.any():
                     j = int(np.flatnonzero(bad)[0])
-                    fail(dict(oracle='timer', disease='syphilis', timer='ti_congenital', kind='due-for-non-susceptible'),
-                         f'syphilis: congenital outcome of agent {int(au[j])} falls due at ti={call.ti} but the agent is no longer susceptible', ti=call.ti, uid=int(au[j]))
+                    cong_nonsus.update(int(x) for x in au[bad])
+                    fail(dict(oracle='timer', disease='syphilis', timer='ti_congenital', kind='due-for-non-susceptible', clock=P.clock_of(dis)),
+                         f'syphilis: congenital outcome of agent {int(au[j])} falls due at module step {call.ti} (sim.ti={call.sim_ti}) but the agent is no '
+                         f'longer susceptible: step_state marks it congenital on top of its stage', ti=call.ti, uid=int(au[j]))
             return
         if call.method != 'set_prognoses': return
         u = arg_uids(call)
